@@ -4,3 +4,4 @@ import BV.C16.Base58
 import BV.C16.Bech32
 import BV.C16.Address
 import BV.C16.Keys
+import BV.C16.Taproot
